@@ -408,6 +408,10 @@ fn write_spec(s: &ProgSpec) -> R<Result<(Written, Vec<ExpRow>, Vec<Option<ExpFil
         let (got_name, got_dir) = p.get_file(*id);
         ensure_eq!(got_name.get(&st, &ls), &name[..], "c13/files/get_file-name", "file #{}", i);
         ensure_eq!(p.get_directory(got_dir).get(&st, &ls), &dir_names[d][..], "c13/files/get_file-directory", "file #{} {:?}", i, String::from_utf8_lossy(name));
+        // (the information kept for a file is what was last given for that name and directory)
+        let want = &mfiles[file_model_idx[i]].1;
+        let info = p.get_file_info(*id);
+        ensure_eq!((info.timestamp, info.size, info.md5, info.source.as_ref().map(|x| x.get(&st, &ls).to_vec())), (want.ts, want.size, want.md5, want.source.clone()), "c13/files/get_file_info", "file #{} {:?}", i, String::from_utf8_lossy(name));
     }
     for (k, id) in dir_ids.iter().enumerate() {
         ensure_eq!(p.get_directory(*id).get(&st, &ls), &dir_names[k][..], "c13/files/get_directory", "directory #{}", k);
@@ -459,8 +463,9 @@ fn write_spec(s: &ProgSpec) -> R<Result<(Written, Vec<ExpRow>, Vec<Option<ExpFil
             p.generate_row();
             last_opi = r.op_index;
             exp_rows.push(ExpRow { address: base + r.offset, op_index: r.op_index, file_raw: raw_of(r.file), line: r.line, column: r.column, is_stmt: r.is_stmt, bb: r.bb, end_sequence: false, pe: r.pe, eb: r.eb, isa: r.isa, disc: r.disc });
-            if seq.restate_after == Some(i) && r.op_index == 0 {
-                // re-state the current address: both readings of `address_offset` agree on what follows
+            if seq.restate_after == Some(i) {
+                // re-state the current address: both readings of `address_offset` agree on what follows (the operation
+                // index restarts at 0 there, as DW_LNE_set_address says; the rows that follow keep their own)
                 p.set_address(Address::Constant(base + r.offset));
             }
         }
@@ -525,7 +530,9 @@ fn resolve(v: &gimli::AttributeValue<EndianSlice<RunTimeEndian>>, wr: &Written, 
 
 fn check_spec(s: &ProgSpec, cx: &mut Ctx) -> R {
     // documented negative cases
-    let mixed_forms_possible = s.version >= 5 && s.has_source && s.src_form != StrForm::Inline;
+    // (every embedded source of a program is given in the one form `src_form`: nothing is mixed, so the writer, which
+    // takes the form of the source column from the first file that has a source, has nothing to refuse)
+    let mixed_forms_possible = false;
     let (wr, exp_rows, exp_files) = match write_spec(s)? {
         Ok(x) => x,
         Err(e) => {
